@@ -816,17 +816,20 @@ func (s *Sim) evictionLimitScenario() {
 		for i := 0; i < n; i++ {
 			out := root.Msg.TxOut[i]
 			crec := &utxoRec{Value: out.Value, PkScript: out.PkScript, Height: next, Kind: KTrue}
+			// (distinct fees: which of several equally attractive transactions
+			// a template takes is decided by map order inside the node)
+			cfee := feeEach + int64(7*(i+1)+1000*k)
 			cp := &txPlan{Version: 2, Ins: []planIn{{Op: wire.OutPoint{Hash: root.Hash, Index: uint32(i)}, Rec: crec, Seq: 0xffffffff}},
-				Outs: []*wire.TxOut{{Value: out.Value - feeEach, PkScript: w.script(KP2PKH, 0)}}}
+				Outs: []*wire.TxOut{{Value: out.Value - cfee, PkScript: w.script(KP2PKH, 0)}}}
 			ch := w.makeTx(cp)
-			ch.Fee = feeEach
+			ch.Fee = cfee
 			w.addTx(ch)
 			s.Submit(ch, 1)
 			if !pool.IsTransactionInPool(&ch.Hash) {
 				s.r.Probe("fan-child-refused")
 				return
 			}
-			sum += feeEach
+			sum += cfee
 		}
 	}
 	s.CheckPool("fan-built")
